@@ -194,6 +194,13 @@ def install_shims(np=True, pickle=True, pool=True):
     if pool:
         from engine.shims import pool_shim
         pool_shim.install()
+    # CrossHair 0.0.110 model limitations on two builtins core.py uses (both reproduced as engine artefacts):
+    #  * its functools.partial patch rejects a keyword argument named `func` (ParMapDataset.__iter__(with_key=True))
+    #  * its set() patch returns a ShellMutableSet for some tuples, which the unbound `set.union(*sets)` in
+    #    KeyZipDataset.__init__ rejects
+    from engine.shims import builtins_shim
+    core.functools = builtins_shim.functools_ns
+    core.set = builtins_shim.PySet
 
 
 def pin_real_floats():
